@@ -284,7 +284,8 @@ def check_1d(chk, drv, sp, rng, nrand):
         case0 = dict(base, der=der)
         ys_s = guarded(chk, 'Spline1D.eval(scalar)', case0, lambda: [s.eval(float(x), der) for x in xs])
         ys_a = guarded(chk, 'Spline1D.eval(array)', case0, lambda: s.eval(xs.copy(), der))
-        out = np.full(len(xs), np.nan)
+        # the in-place entry point must fill the array it is given, also when that is a strided view (a column of a table)
+        out = np.full(len(xs), np.nan) if der == 0 else np.full((len(xs), 3), np.nan)[:, 1]
         ok_v = guarded(chk, 'Spline1D.eval_vector', case0, lambda: (s.eval_vector(xs.copy(), out, der), True)[1])
         mo = drv.call(sp.req1d(c, xs, der))
         M = sp.ref_matrix(xs, der)
@@ -340,6 +341,17 @@ def check_getitem(chk, drv, sp, rng, nrand):
         if not np.array_equal(np.asarray(spl.coeffs), e):
             chk.fail('C07:getitem-coeffs', 'BSplines[i] does not carry the unit coefficient vector (with periodic wrap)',
                      case0, expected=e.tolist(), actual=np.asarray(spl.coeffs).tolist())
+        if i % 2 == 0:
+            # a spline obtained through BSplines[i] belongs to the caller: using it as a work spline must not change what the
+            # basis returns the next time
+            tmp = guarded(chk, 'BSplines.__getitem__', case0, lambda: sp.b[i])
+            if tmp is not None:
+                tmp.coeffs[:] = 7.0
+                again = guarded(chk, 'BSplines.__getitem__', case0, lambda: sp.b[i])
+                if again is not None and not np.array_equal(np.asarray(again.coeffs), e):
+                    chk.fail('C07:getitem-aliased', 'BSplines[i] returns a spline whose coefficients were modified through an earlier BSplines[i]',
+                             case0, expected=e.tolist(), actual=np.asarray(again.coeffs).tolist())
+                spl = again if again is not None else spl
         for der in (0, 1):
             ys = guarded(chk, 'BSplines.__getitem__', dict(case0, der=der), lambda: spl.eval(xs.copy(), der))
             if ys is None:
@@ -571,7 +583,7 @@ def check_2d(chk, drv, s1, s2, rng, npts):
             # the three public entry points + the raw zip kernel
             Zs = guarded(chk, 'Spline2D.eval(scalar)', case0, lambda: np.array([[S.eval(float(x), float(y), d1, d2) for y in Y] for x in X]))
             Zc = guarded(chk, 'Spline2D.eval(cross)', case0, lambda: S.eval(X.copy(), Y.copy(), d1, d2))
-            Zv = np.full((len(X), len(Y)), np.nan)
+            Zv = np.full((len(X), len(Y)), np.nan) if d1 == d2 else np.full((len(X), len(Y), 2), np.nan)[:, :, 1]   # strided view
             okv = guarded(chk, 'Spline2D.eval_vector', case0, lambda: (S.eval_vector(X.copy(), Y.copy(), Zv, d1, d2), True)[1])
             zz = np.full(nz, np.nan)
             okz = guarded(chk, vec_kernel.__name__, case0,
